@@ -37,12 +37,14 @@ static B run_mode(const std::string &mode, const B &e, const map_basic_basic &m,
 }
 
 // result or the name of the exception
+static std::string g_last_what;
 static std::string run_catch(const std::string &mode, const B &e, const map_basic_basic &m, bool cache, B &out)
 {
     try {
         out = run_mode(mode, e, m, cache);
         return "";
     } catch (const std::exception &ex) {
+        g_last_what = ex.what();
         return exc_name(ex);
     }
 }
@@ -243,8 +245,13 @@ std::string hx_run(const std::string &line, std::string &oracle)
     }
     if (!ec.empty()) {
         stat("both_throw_" + ec);
-        if (ec == "E:Assert")
-            oracle = "FAIL:assert:" + mode + " raised a canonical-form assertion";
+        if (ec == "E:Assert") {
+            if (g_last_what.find("is_canonical(") != std::string::npos)
+                // a canonical-form check inside add/mul/pow constructors on the substituted operands: left to C03
+                stat("assert_is_canonical_in_constructor_ignored");
+            else
+                oracle = "FAIL:assert:" + mode + " raised " + g_last_what;
+        }
         return ec;
     }
     B R = cache ? rc : ru;
@@ -256,7 +263,11 @@ std::string hx_run(const std::string &line, std::string &oracle)
     if (identity) {
         stat("identity_cases");
         if (!eq(*R, *e)) {
-            oracle = "FAIL:identity:identity map changed the expression to " + out;
+            // SubsVisitor's exponent path (single key b**k) rewrites b**e to w**(e/k) also for a non-integer
+            // quotient: x**3 with {x**2: x**2} becomes (x**2)**(3/2)   (docs/C11.md, D-C11-2)
+            bool powpath = mode == "subs" && sigma.size() == 1 && is_a<Pow>(*sigma[0].first);
+            oracle = std::string("FAIL:") + (powpath ? "identity-pow-path" : "identity")
+                     + ":identity map changed the expression to " + out;
             return out;
         }
     }
